@@ -146,15 +146,14 @@ def objectStep (cap : Nat) (ps : PState) : Option PState :=
       else if r.halt = .exc then none
       else if !r.good then none                                 -- "Read beyond end of file": object dropped
       else
-        -- if (tmp != 0) seekg(tmp)   with tmp = objectSize - calculateObjectSize() < 0
-        let r2 : Option St :=
-          if csz > osz then
-            if r.pos + osz < csz then none else some { r with pos := min (r.pos + osz - csz) r.inp.length }
-          else some r
-        match r2 with
-        | none => some { ps with st := r, objs := (c.name, r.obj) :: ps.objs, outcome := some .hang }
-        | some r2 =>
-          some { st := r2, objs := (c.name, r.obj) :: ps.objs,
+        -- if (tmp != 0) seekg(tmp)   with tmp = objectSize - calculateObjectSize() < 0; never back to the object's start
+        if csz > osz then
+          if r.pos + osz ≤ st1.pos + csz then none              -- "Object size smaller than object": Exception
+          else
+            some { st := { r with pos := min (r.pos + osz - csz) r.inp.length }, objs := (c.name, r.obj) :: ps.objs,
+                   count := if r.obj.num 4 = 115 then ps.count else ps.count + 1 }
+        else
+          some { st := r, objs := (c.name, r.obj) :: ps.objs,
                  count := if r.obj.num 4 = 115 then ps.count else ps.count + 1 }
 
 def objectLoop (cap : Nat) : Nat → PState → PState
